@@ -36,7 +36,7 @@ theorem stmt_in_history (hwf : WF C) {net : Net} (hinv : NetInv C hwf net) {i : 
     (hm : ∃ m ∈ C.ms, m.id = i) (hs : net.started i = true) {o : Out} (ho : o ∈ net.outs i) :
     (∀ v h, stmtOf o = some (.acc v h) → Ev.acc i v h ∈ net.H)
     ∧ (∀ v h, stmtOf o = some (.cmt v h) → Ev.com i v h ∈ net.H ∨ Ev.lcom i v h ∈ net.H) := by
-  obtain ⟨⟨T, hcore, herase⟩, _, _, _⟩ := hinv.nodes i hh hm hs
+  obtain ⟨⟨T, hcore, herase⟩, _, _, _, _⟩ := hinv.nodes i hh hm hs
   constructor
   · intro v h hst
     have h1 : Stmt.acc v h ∈ (net.outs i).filterMap stmtOf := List.mem_filterMap.mpr ⟨_, ho, hst⟩
@@ -188,9 +188,9 @@ theorem admB_sound (hwf : WF C) {net : Net} (hinv : NetInv C hwf net) {e : Event
 
 /-- **a schedule whose steps all pass the decidable checks is an execution of the network model** -/
 theorem sim_reach (hwf : WF C) (xs : List SStep) : ∀ (s : SimState) (net : Net), Reach C net → Agrees net s →
-    simOk C s xs = true → ∃ net', Reach C net' ∧ Agrees net' (sim s xs) := by
+    simOk C s xs = true → ∃ net', Reach C net' ∧ Agrees net' (sim s xs) ∧ net'.trace = xs.reverse ++ net.trace := by
   induction xs with
-  | nil => intro s net hr ha _; exact ⟨net, hr, ha⟩
+  | nil => intro s net hr ha _; exact ⟨net, hr, ha, rfl⟩
   | cons x xs ih =>
     intro s net hr ha hok
     simp only [simOk, Bool.and_eq_true] at hok
@@ -204,47 +204,51 @@ theorem sim_reach (hwf : WF C) (xs : List SStep) : ∀ (s : SimState) (net : Net
     have hinv := reach_inv hwf hr
     have key : ∃ net', NStep C net net' ∧ net'.node = upd net.node i (step (net.node i) e spi).1
         ∧ net'.started = upd net.started i true
-        ∧ net'.outs = upd net.outs i (net.outs i ++ (step (net.node i) e spi).2) := by
+        ∧ net'.outs = upd net.outs i (net.outs i ++ (step (net.node i) e spi).2)
+        ∧ net'.trace = (i, e, spi) :: net.trace := by
       cases e with
       | start b =>
         have hs : net.started i = false := by rw [as]; simpa using hev
         obtain ⟨f1, _, _⟩ := hinv.fresh i hs
         obtain ⟨w', g, hruns, hst⟩ := step_runs (net.node i) (.start b) spi (by rw [f1]; exact ⟨rfl, rfl⟩)
           (by rw [f1]; exact viewsOK_init _) (by rw [f1]; exact C10.lvInv_init _) (by rw [f1]; exact (C01Local.ginv_init _).leader)
-        exact ⟨_, NStep.start net i b spi w' g hh hmem' hs hruns hst, by rw [hst], rfl, by rw [hst]⟩
+        exact ⟨_, NStep.start net i b spi w' g hh hmem' hs hruns hst, by rw [hst], rfl, by rw [hst], rfl⟩
       | deliver m =>
         simp only [Bool.and_eq_true] at hev
         obtain ⟨⟨hs, hg⟩, hadm⟩ := hev
         rw [← as] at hs hadm
         rw [← ao] at hadm
         obtain ⟨hgate, hns⟩ := gateB_sound hg
-        obtain ⟨⟨T, hcore, _⟩, _, hvo, hlv⟩ := hinv.nodes i hh hmem' hs
+        obtain ⟨⟨T, hcore, _⟩, _, hvo, hlv, _⟩ := hinv.nodes i hh hmem' hs
         obtain ⟨w', g, hruns, hst⟩ := step_runs (net.node i) (.deliver m) spi
           (eventLocal_of_gate _ _ (by rw [hcore.cfg]; exact hgate) hns) hvo hlv hcore.ginv.leader
         exact ⟨_, NStep.event net i (.deliver m) spi w' g hh hmem' hs hns hgate (admB_sound hwf hinv hadm) hruns hst,
-          by rw [hst], rfl, by rw [hst]⟩
+          by rw [hst], rfl, by rw [hst], rfl⟩
       | election a b =>
         simp only [Bool.and_eq_true] at hev
         obtain ⟨⟨hs, hg⟩, hadm⟩ := hev
         rw [← as] at hs
         obtain ⟨hgate, hns⟩ := gateB_sound hg
-        obtain ⟨⟨T, hcore, _⟩, _, hvo, hlv⟩ := hinv.nodes i hh hmem' hs
+        obtain ⟨⟨T, hcore, _⟩, _, hvo, hlv, _⟩ := hinv.nodes i hh hmem' hs
         obtain ⟨w', g, hruns, hst⟩ := step_runs (net.node i) (.election a b) spi trivial hvo hlv hcore.ginv.leader
         exact ⟨_, NStep.event net i (.election a b) spi w' g hh hmem' hs hns hgate trivial hruns hst,
-          by rw [hst], rfl, by rw [hst]⟩
+          by rw [hst], rfl, by rw [hst], rfl⟩
       | cancelOlder a b =>
         simp only [Bool.and_eq_true] at hev
         obtain ⟨⟨hs, hg⟩, hadm⟩ := hev
         rw [← as] at hs
         obtain ⟨hgate, hns⟩ := gateB_sound hg
-        obtain ⟨⟨T, hcore, _⟩, _, hvo, hlv⟩ := hinv.nodes i hh hmem' hs
+        obtain ⟨⟨T, hcore, _⟩, _, hvo, hlv, _⟩ := hinv.nodes i hh hmem' hs
         obtain ⟨w', g, hruns, hst⟩ := step_runs (net.node i) (.cancelOlder a b) spi trivial hvo hlv hcore.ginv.leader
         exact ⟨_, NStep.event net i (.cancelOlder a b) spi w' g hh hmem' hs hns hgate trivial hruns hst,
-          by rw [hst], rfl, by rw [hst]⟩
-    obtain ⟨net', hstep, k1, k2, k3⟩ := key
-    refine ih (simStep s (i, e, spi)) net' (.step hr hstep) ?_ hrest
-    unfold simStep
-    exact ⟨by rw [k1, an], by rw [k2, as], by rw [k3, ao, an]⟩
+          by rw [hst], rfl, by rw [hst], rfl⟩
+    obtain ⟨net', hstep, k1, k2, k3, k4⟩ := key
+    obtain ⟨net'', hr'', ha'', ht''⟩ := ih (simStep s (i, e, spi)) net' (.step hr hstep) (by
+      unfold simStep
+      exact ⟨by rw [k1, an], by rw [k2, as], by rw [k3, ao, an]⟩) hrest
+    refine ⟨net'', hr'', ha'', ?_⟩
+    rw [ht'', k4, List.reverse_cons, List.append_assoc]
+    rfl
 
 theorem agrees_init (C : NetCfg) : Agrees (Net.init C) (SimState.init C) := ⟨rfl, rfl, rfl⟩
 
